@@ -115,6 +115,13 @@ def generate(rng, tier):
         for m in alts:
             if m != s.M1:
                 cs.append(Case(server_line(us, v32, salt, s.A32, m, b, chal), "M1-over-another-encoding", server_expect(s.U, s.v, salt, s.A32, m, b, chal)))
+        # and the same on the client: a server proof M2 hashed over another encoding of A, M1 or K is not the server proof
+        base = "%s %s 7 %s %s %s" % (enc(us), enc(ps), N_LE.hex(), s.B32.hex(), salt.hex())
+        cs.append(Case("cli.verify %s %s | %s" % (base, s.M2.hex(), a.hex()), "small-A-baseline-accept-M2", "ok %s ~32" % s.K.hex()))
+        for m2p in (pyref.M2(strip(s.A32), s.M1, s.K), pyref.M2(s.A32[::-1], s.M1, s.K), pyref.M2(strip(s.A32)[::-1], s.M1, s.K), pyref.M2(s.A32, s.M1[::-1], s.K),
+                    pyref.M2(s.A32, s.M1, s.K[::-1]), pyref.M2(s.A32, s.M1, strip(s.K)), pyref.sha1(s.A32, s.M1), pyref.M2(s.B32, s.M1, s.K)):
+            if m2p != s.M2:
+                cs.append(Case("cli.verify %s %s | %s" % (base, m2p.hex(), a.hex()), "M2-over-another-encoding", "err %s %s ~32" % (s.M2.hex(), m2p.hex())))
     # sessions whose B has a zero top byte need a search over b (1 in 256)
     found = 0
     for _ in range(3000):
